@@ -1014,6 +1014,10 @@ def check_run(ctx, prop, build, label, rp, max_ti=None):
             except AttributeError:
                 pass
     run.res = Result(model=m, parset=parset)
+    if not all(np.isfinite(np.asarray(c.vals, dtype=float)).all() for pop_ in m.pops for c in pop_.comps):
+        # an ill-posed model of the extreme regime (people initialised in a junction whose proportions are all zero: the flush is 0/0; C04's business): parameter values that read the NaN stocks are not compared
+        ctx.count("run.nonfinite_stocks(skipped)")
+        return run
     run.progset, run.instr = m.progset, m.program_instructions
     run.m_dynamic_names = set(m._exec_order["dynamic_pars"])
     # independent statement of which names the loop must visit
